@@ -114,7 +114,8 @@ func (v VLA) analyzeVLAForMarshaling() (*vlaMarshalingContext, error) {
 	if ctx.commonSLBM != 0 {
 		ctx.requiredLen = 1
 	} else {
-		ctx.requiredLen = 3
+		// one bitmask byte for up to two streams, two bytes otherwise
+		ctx.requiredLen = 2 + (v.RTPStreamCount-1)/2
 	}
 
 	// #tl fields
